@@ -1326,7 +1326,6 @@ var _ = late(func() {
 		}})
 })
 
-
 // compactedPrefix: sl is base[:K] where K is a loop counter that starts at 0 and is incremented by one exactly in blocks that
 // (1) run under the key-not-yet-seen outcome of a map lookup and (2) store an element into base[K]: the prefix holds the first
 // occurrences only.
